@@ -40,6 +40,9 @@ TReset   == IsEvent("Reset") /\ val' = [h \in HN |-> DeadV]
 TLoad    == IsEvent("load")    /\ Step(I) /\ New(I) /\ SameLang(val'[I].aut, ToAut(E.aut))
 TCopy    == IsEvent("copy")    /\ Step(I) /\ New(I) /\ val[J].alive /\ SameLang(val'[I].aut, val[J].aut)
 TAssign  == IsEvent("assign")  /\ Step(I) /\ val[I].alive /\ val[J].alive /\ val'[I].alive /\ SameLang(val'[I].aut, val[J].aut)
+\* SetStateFinal on one handle (copies share the table, but final states belong to the automaton)
+TFinal   == IsEvent("final")   /\ Step(I) /\ val[I].alive /\ val'[I].alive
+            /\ LangEq(val'[I].aut, [fin |-> val[I].aut.fin \cup {E.q}, rules |-> val[I].aut.rules])
 TDestroy == IsEvent("destroy") /\ Step(I) /\ val[I].alive /\ ~val'[I].alive
 TTDestroy == IsEvent("tdestroy") /\ Step(Tname(E.i)) /\ val[Tname(E.i)].alive /\ ~val'[Tname(E.i)].alive
 TUnion   == IsEvent("union")   /\ Step(I) /\ New(I) /\ val[J].alive /\ val[K].alive
@@ -51,7 +54,7 @@ TIsect   == IsEvent("isect")   /\ Step(I) /\ New(I) /\ val[J].alive /\ val[K].al
 TUnreach == IsEvent("unreach") /\ Step(I) /\ New(I) /\ val[J].alive /\ LangEq(val'[I].aut, val[J].aut)
 TUseless == IsEvent("useless") /\ Step(I) /\ New(I) /\ val[J].alive /\ LangEq(val'[I].aut, val[J].aut) /\ IsTrim(val'[I].aut)
 TToTD    == IsEvent("totd")    /\ Step(Tname(E.i)) /\ New(Tname(E.i)) /\ val[J].alive /\ LangEq(val'[Tname(E.i)].aut, val[J].aut)
-TNext == \/ TReset \/ TLoad \/ TCopy \/ TAssign \/ TDestroy \/ TTDestroy \/ TUnion \/ TUnionDisj \/ TIsect
+TNext == \/ TReset \/ TLoad \/ TFinal \/ TCopy \/ TAssign \/ TDestroy \/ TTDestroy \/ TUnion \/ TUnionDisj \/ TIsect
          \/ TUnreach \/ TUseless \/ TToTD
 TSpec == TInit /\ [][TNext]_tvars
 TraceAccepted ==
